@@ -664,6 +664,165 @@ def loader_rt(tier):
                       "synthesised i386 / x86-64 ELF executables with 1-3 loadable segments in distinct pages, page-sharing, adjacent; memory image, program counter and entry instruction compared with the file; distinct = (class, layout, segment count)", tier)
 
 
+def pe_parse(img):
+    "independent reading of the PE headers and section table (struct only)"
+    lfanew = struct.unpack_from("<I", img, 0x3C)[0]
+    assert img[lfanew:lfanew + 4] == b"PE\0\0"
+    nsec, = struct.unpack_from("<H", img, lfanew + 6)
+    optsz, = struct.unpack_from("<H", img, lfanew + 20)
+    opt = lfanew + 24
+    magic, = struct.unpack_from("<H", img, opt)
+    entry, = struct.unpack_from("<I", img, opt + 16)
+    base = struct.unpack_from("<I", img, opt + 28)[0] if magic == 0x10B else struct.unpack_from("<Q", img, opt + 24)[0]
+    salign, falign = struct.unpack_from("<II", img, opt + 32)
+    secs = []
+    tab = opt + optsz
+    for k in range(nsec):
+        o = tab + 40 * k
+        name = img[o:o + 8]
+        vs, rva, raw, ptr = struct.unpack_from("<IIII", img, o + 8)
+        secs.append(dict(name=name, VirtualSize=vs, RVA=rva, SizeOfRawData=raw, PointerToRawData=ptr, at=o))
+    return dict(entry=entry, base=base, salign=salign, falign=falign, secs=secs)
+
+
+def _pe_case(seed, base_img, intact=False):
+    """a variant of a real PE sample: the VirtualSize / SizeOfRawData of the sections that hold no
+    import data are rewritten (virtual size larger than the raw data: zero tail; smaller; no raw data)"""
+    from amoco.system.core import load_program
+    from amoco.system.pe import PE
+    from contracts.rt import sig
+    rng = random.Random(seed)
+    t0 = pe_parse(base_img)
+    img = bytearray(base_img)
+    secs = t0["secs"]
+    edits = []
+    for k, s in enumerate(secs):
+        nxt = secs[k + 1]["RVA"] if k + 1 < len(secs) else s["RVA"] + 0x100000
+        room = nxt - s["RVA"]
+        if s["name"].startswith(b".rdata") or s["name"].startswith(b".idata"):
+            continue
+        raw = s["SizeOfRawData"]
+        choice = "keep" if intact else rng.choice(("keep", "keep", "tail", "short", "equal", "noraw"))
+        vs, nraw = s["VirtualSize"], raw
+        if choice == "tail":
+            vs = min(room, raw + rng.choice((1, 0x77, 0x800)))
+        elif choice == "short" and raw > 0x40:
+            vs = raw // 2 + 1
+        elif choice == "equal":
+            vs = raw
+        elif choice == "noraw" and not s["name"].startswith(b".text"):
+            nraw, vs = 0, min(room, max(vs, 0x123))
+        struct.pack_into("<I", img, s["at"] + 8, vs)
+        struct.pack_into("<I", img, s["at"] + 16, nraw)
+        edits.append((s["name"].rstrip(b"\0").decode(), choice))
+    img = bytes(img)
+    t = pe_parse(img)
+    case = {"edits": edits}
+    bad = []
+    try:
+        pe = PE(SCORE.DataIO(img))
+    except Exception as ex:
+        return case, ["PE parser raised %s" % sig(ex)]
+    if pe.basemap != t["base"]:
+        bad.append("image base %#x, file encodes %#x" % (pe.basemap, t["base"]))
+    if pe.entrypoints != [t["base"] + t["entry"]]:
+        bad.append("entry points %s, file encodes %#x" % (pe.entrypoints, t["base"] + t["entry"]))
+    if len(pe.sections) != len(t["secs"]):
+        bad.append("%d sections reported, %d encoded" % (len(pe.sections), len(t["secs"])))
+        return case, bad
+    for S, s in zip(pe.sections, t["secs"]):
+        nm = s["name"].rstrip(b"\0").decode()
+        for f in ("VirtualSize", "RVA", "SizeOfRawData", "PointerToRawData"):
+            if getattr(S, f) != s[f]:
+                bad.append("section %s: %s = %#x, file encodes %#x" % (nm, f, getattr(S, f), s[f]))
+        vs, raw, ptr, rva = s["VirtualSize"], s["SizeOfRawData"], s["PointerToRawData"], s["RVA"]
+        if vs > 0:
+            for k in (0, vs - 1):
+                got = pe.locate(rva + k)
+                if got[0] is not S or got[1] != k:
+                    bad.append("locate(section %s + %#x) does not give that section and offset" % (nm, k))
+            got = pe.locate(rva + vs)
+            if got[0] is S:
+                bad.append("locate(one past the end of section %s) still gives the section" % nm)
+        if min(vs, raw) > 0:
+            k = rng.randrange(min(vs, raw))
+            try:
+                fo = pe.getfileoffset(t["base"] + rva + k)
+                if fo != ptr + k:
+                    bad.append("getfileoffset(section %s + %#x) = %#x, the file maps it to %#x" % (nm, k, fo, ptr + k))
+            except Exception as ex:
+                bad.append("getfileoffset raised %s" % sig(ex))
+        try:
+            m = pe.loadsegment(S)
+            (a, data), = m.items()
+            if a != t["base"] + rva:
+                bad.append("section %s mapped at %#x, the file places it at %#x" % (nm, a, t["base"] + rva))
+            fb = img[ptr:ptr + raw]
+            if bytes(data[:len(fb)]) != fb:
+                bad.append("section %s: mapped bytes differ from the file's raw data" % nm)
+            if len(data) < vs:
+                bad.append("section %s: %d bytes mapped, virtual size %d" % (nm, len(data), vs))
+            if vs > raw and any(bytes(data[raw:vs])):
+                bad.append("section %s: bytes beyond the raw data (virtual size > raw size) are not zero" % nm)
+        except Exception as ex:
+            bad.append("loadsegment(%s) raised %s" % (nm, sig(ex)))
+    # the loaded task
+    try:
+        p = load_program(img)
+    except Exception as ex:
+        bad.append("load_program raised %s" % sig(ex))
+        return case, bad
+    for s in t["secs"]:
+        nm = s["name"].rstrip(b"\0").decode()
+        n = s["VirtualSize"]
+        if n == 0:
+            continue
+        try:
+            parts = p.state.mmap.read(t["base"] + s["RVA"], n)
+        except Exception as ex:
+            bad.append("reading section %s of the task raised %s" % (nm, sig(ex)))
+            continue
+        expected = img[s["PointerToRawData"]:s["PointerToRawData"] + min(n, s["SizeOfRawData"])].ljust(n, b"\0")
+        pos = 0
+        for part in parts:
+            ln = len(part)
+            if isinstance(part, bytes) and part != expected[pos:pos + ln]:
+                first = pos + [j for j in range(ln) if part[j] != expected[pos + j]][0]
+                where = "raw data" if first < s["SizeOfRawData"] else "zero tail"
+                bad.append("task memory of section %s differs from the file in the %s" % (nm, where))
+                break
+            pos += ln
+    pc = p.state(p.cpu.eip)
+    if not pc._is_cst or int(pc) != t["base"] + t["entry"]:
+        bad.append("program counter is not the entry point")
+    return case, bad
+
+
+def _pe_rt(tier, seed, only=None, prop="C14"):
+    from contracts.rt import sig
+    n = 12 if tier == "quick" else 300
+    base_img = open(os.path.join(SAMPLES, "x86", "puttygen.exe"), "rb").read()
+    seeds = [only["seed"]] if only is not None else ["pe/intact"] + ["pe/%s/%d" % (seed, k) for k in range(n)]
+    fails, samples, distinct = [], [], set()
+    for sd in seeds:
+        case, bad = _pe_case(sd, base_img, intact=(sd == "pe/intact"))
+        distinct.add(tuple(tuple(e) for e in case["edits"]))
+        loading = ("mapped", "task memory", "program counter", "bytes beyond", "load_program", "loadsegment", "reading section")
+        bad = [b for b in bad if any(w in b for w in loading) == (prop == "C15")]
+        for b in bad[:3]:
+            fails.append(({"seed": sd, "sig": "pe:" + b[:50]}, "%s: %s" % (case, b)))
+        if len(samples) < 3:
+            samples.append(case)
+    return len(seeds), fails, samples, len(distinct)
+
+
+def pe_rt(tier, prop):
+    return _RtGeneric("F/pe/sample-variants", [prop], ["amoco.system.pe:PE.__init__", "amoco.system.pe:SectionHdr", "amoco.system.pe:PE.locate", "amoco.system.pe:PE.getfileoffset",
+                                                        "amoco.system.pe:PE.loadsegment", "amoco.system.win32.x86:OS.load_pe_binary", "amoco.system.core:load_program"],
+                      (lambda tier_, seed_, only=None: _pe_rt(tier_, seed_, only, prop)), ("contracts.formats:pe_rt", {"tier": tier, "prop": prop}),
+                      "the PE sample puttygen.exe and variants of it with rewritten VirtualSize / SizeOfRawData of the sections without import data (zero tail, short, equal, no raw data); headers and section table against an independent struct-based reading; distinct = different edit combinations", tier)
+
+
 def elf_rt(tier):
     return _RtGeneric("F/elf/synthesised-images", ["C14"], ["amoco.system.elf:Elf.__init__", "amoco.system.elf:Ehdr.unpack", "amoco.system.elf:Phdr", "amoco.system.elf:Shdr",
                                                             "amoco.system.elf:Elf.getfileoffset", "amoco.system.elf:Elf.data"],
@@ -688,9 +847,11 @@ def obligations(prop, tier, seed):
             obs.append(elf_getinfo(n=n))
         obs.append(elf_rt(tier))
         obs.append(records_rt(tier))
+        obs.append(pe_rt(tier, "C14"))
     if prop == "C15":
         for k in (8, 12, 16) if tier == "quick" else range(8, 17):
             obs.append(elf_loadsegment(k=k))
             obs.append(elf_loadsegment(k=k, congruent=False))
         obs.append(loader_rt(tier))
+        obs.append(pe_rt(tier, "C15"))
     return obs
